@@ -1,4 +1,55 @@
-import Jamm.Proofs.SpecLemmas
+/-
+C03 — a read-only transaction sees one frozen snapshot for its whole life.
+
+Model (`Jamm/Model/Freelist.lean`): snapshots are (transaction id, set of reachable pages); a reader
+keeps the snapshot it started from *by value* (the code copies the header at begin and keeps its own
+reference to the map); writers are abstract copy-on-write clients that free pages of the snapshot they
+started from and write only pages they allocated; `Tx::new(writable)` releases pending pages older than
+the oldest registered reader.  Theorems, for every history of protocol-abiding events and any number
+of readers opened and closed in any order:
+* the accounting invariant holds in every reachable state (`invariant_always`);
+* no committing writer ever writes a page of an open reader's snapshot (`reader_pages_never_written`);
+* no page of an open reader's snapshot is ever in the shared free set (`reader_pages_never_free`).
+A page that is never written keeps its bytes, and a reader resolves its snapshot only through pages of
+`reach`, so what it observes cannot change.  The tie to the code is exact and checked on every commit
+of the correspondence run: the writer's freed / allocated page sets are extracted from consecutive
+real files, the model applies its own release rule, and the real in-memory free list (hook accessor)
+must equal the model's.
+-/
+import Jamm.Proofs.FreelistLemmas
+set_option linter.unusedSectionVars false
+
 namespace Jamm.Props.C03
-theorem placeholder : True := trivial
+open Jamm
+
+theorem invariant_initially :
+    ({ cur := { txId := 0, reach := [2, 3] }, shared := {}, readers := [], numPages := 4 } : Sys).invB = true :=
+  inv_init
+
+theorem invariant_always (s : Sys) (evs : List Ev) (s' : Sys) (hi : s.invB = true)
+    (h : s.runEvs evs = some s') : s'.invB = true :=
+  inv_run s evs s' hi h
+
+theorem reader_pages_never_written (s : Sys) (evs : List Ev) (s' : Sys) (hi : s.invB = true)
+    (h : s.runEvs evs = some s') (w : WriterTx) (hc : s'.clientOkB (.commitW w) = true)
+    (r : Snap) (hr : r ∈ s'.readers) : disjointB r.reach (s'.writes w) = true :=
+  reader_pages_not_written s' w (inv_run s evs s' hi h) hc r hr
+
+theorem reader_pages_never_free (s : Sys) (evs : List Ev) (s' : Sys) (hi : s.invB = true)
+    (h : s.runEvs evs = some s') (r : Snap) (hr : r ∈ s'.readers) :
+    disjointB r.reach s'.shared.free = true :=
+  reader_pages_not_free s' (inv_run s evs s' hi h) r hr
+
+/-- a reader's snapshot is a value: no event changes the snapshot an open reader holds -/
+theorem reader_snapshot_is_a_value (s : Sys) (w : WriterTx) :
+    (s.step (.commitW w)).readers = s.readers ∧ (s.step (.dropW w)).readers = s.readers := ⟨rfl, rfl⟩
+
+/-- non-vacuity: a reader held across two page-reusing commits -/
+example :
+    let s0 : Sys := { cur := { txId := 0, reach := [2, 3] }, shared := {}, readers := [], numPages := 4 }
+    let evs : List Ev := [.commitW { freed := [3], requests := [1] }, .beginR,
+                          .commitW { freed := [4], requests := [2] }, .commitW { freed := [5], requests := [1] }]
+    (s0.runEvs evs).isSome = true ∧ ((s0.runEvs evs).map (fun s => s.readers.map (·.reach))) = some [[2, 4]] := by
+  decide
+
 end Jamm.Props.C03
